@@ -17,8 +17,11 @@ def analyse(prop, tier, repo, debug_assertions=True, facts_file=None):
     prog = mir.Program(f)
     ctx = cw.CW(prog)
     ctx.tier = tier
-    results = registry.run_rules(ctx, spec["rules"])
-    return results, dict(f["meta"])
+    errors = []
+    results = registry.run_rules(ctx, spec["rules"], errors)
+    meta = dict(f["meta"])
+    meta["analysis_errors"] = errors
+    return results, meta
 
 
 def main(argv):
@@ -48,6 +51,7 @@ def main(argv):
         configs = [{"debug_assertions": True, "bodies": meta.get("bodies")}]
         if tier == "thorough" and not a.facts:
             res2, meta2 = analyse(prop, tier, a.repo, False)
+            meta["analysis_errors"] = meta.get("analysis_errors", []) + meta2.get("analysis_errors", [])
             configs.append({"debug_assertions": False, "bodies": meta2.get("bodies")})
             for r in res2:
                 r.rule_config = "release"
@@ -79,8 +83,15 @@ def main(argv):
         traceback.print_exc()
         print("ANALYSIS-ERROR property=%s: internal error in the checker" % prop)
         return 2
+    aerr = meta.get("analysis_errors", [])
     rc = report.finish(prop, spec["level"], tier, results, meta, t0, assumptions=spec.get("assumptions"),
-                       not_decided=spec.get("not_decided"))
+                       not_decided=spec.get("not_decided"),
+                       extra_cov={"analysis_errors": [{"rule": n, "text": x} for n, x in aerr]} if aerr else None)
+    for (n, x) in aerr:
+        print("ANALYSIS-ERROR property=%s rule=%s: %s" % (prop, n, x))
+    if aerr and rc == 0:
+        # some rule could not analyse the tree and no other rule found a violation: neither pass nor alarm
+        rc = 2
     nv = sum(len(r.violations) for r in results)
     print("%s: %d rules, %d obligations, %d discharged, %d violation key(s) [%s, %.1fs]" % (
         prop, len(results), sum(r.obligations for r in results), sum(r.discharged for r in results), nv, tier,
